@@ -13,9 +13,10 @@ EXTENDS AliquotLex, IOUtils
 VARIABLE l
 Trace == JsonDeserialize(IOEnv.TRACE_FILE)
 tvars == <<vars, l>>
-TraceInit == l = 1 /\ w = <<>> /\ js = <<>> /\ clean = FALSE /\ phase = "trace"
+TraceInit == l = 1 /\ w = <<>> /\ js = <<>> /\ clean = FALSE /\ phase = "trace" /\ st = <<>> /\ jn = <<>> /\ round = 0
 Consume == /\ l <= Len(Trace) /\ l' = l + 1
-           /\ w' = Trace[l].w /\ js' = <<l>> /\ clean' = Trace[l].clean /\ phase' = "observed"
+           /\ w' = Trace[l].w /\ js' = Trace[l].js /\ clean' = Trace[l].clean /\ phase' = "observed"
+           /\ UNCHANGED <<st, jn, round>>
 TraceSpec == TraceInit /\ [][Consume]_tvars
 Rec == Trace[l - 1]
 
